@@ -580,6 +580,47 @@ func init() {
 		"runtime.NumGoroutine":           func(fr *frame, a []value) value { return fr.i.sched.live() },
 		"runtime.KeepAlive":              func(fr *frame, a []value) value { return nil },
 
+		// ---------------- strings.Builder / bytes.Buffer (contents keyed by address)
+		"(*strings.Builder).WriteString": func(fr *frame, a []value) value {
+			b := fr.i.builder(a[0])
+			*b = append(*b, a[1].(string)...)
+			return tuple{len(a[1].(string)), iface{}}
+		},
+		"(*strings.Builder).Write": func(fr *frame, a []value) value {
+			b := fr.i.builder(a[0])
+			for _, x := range a[1].([]value) {
+				*b = append(*b, x.(byte))
+			}
+			return tuple{len(a[1].([]value)), iface{}}
+		},
+		"(*strings.Builder).WriteByte": func(fr *frame, a []value) value {
+			b := fr.i.builder(a[0])
+			*b = append(*b, a[1].(byte))
+			return iface{}
+		},
+		"(*strings.Builder).WriteRune": func(fr *frame, a []value) value {
+			b := fr.i.builder(a[0])
+			*b = append(*b, string(a[1].(rune))...)
+			return tuple{len(string(a[1].(rune))), iface{}}
+		},
+		"(*strings.Builder).String": func(fr *frame, a []value) value { return string(*fr.i.builder(a[0])) },
+		"(*strings.Builder).Len":    func(fr *frame, a []value) value { return len(*fr.i.builder(a[0])) },
+		"(*strings.Builder).Reset":  func(fr *frame, a []value) value { *fr.i.builder(a[0]) = nil; return nil },
+		"(*strings.Builder).Grow":   func(fr *frame, a []value) value { return nil },
+		"bytes.NewBufferString": func(fr *frame, a []value) value {
+			var cell value = structure{}
+			p := &cell
+			b := fr.i.builder(p)
+			*b = append(*b, a[0].(string)...)
+			return p
+		},
+		"(*bytes.Buffer).WriteString": func(fr *frame, a []value) value {
+			b := fr.i.builder(a[0])
+			*b = append(*b, a[1].(string)...)
+			return tuple{len(a[1].(string)), iface{}}
+		},
+		"(*bytes.Buffer).String": func(fr *frame, a []value) value { return string(*fr.i.builder(a[0])) },
+
 		// ---------------- sync/atomic
 		"sync/atomic.LoadInt32":  func(fr *frame, a []value) value { return (*a[0].(*value)).(int32) },
 		"sync/atomic.LoadInt64":  func(fr *frame, a []value) value { return (*a[0].(*value)).(int64) },
@@ -792,6 +833,16 @@ func cancelFunc(c *vmCtx) value {
 		}
 		return nil
 	}}
+}
+
+func (i *interpreter) builder(addr value) *[]byte {
+	p := addr.(*value)
+	b := i.builders[p]
+	if b == nil {
+		b = new([]byte)
+		i.builders[p] = b
+	}
+	return b
 }
 
 func (i *interpreter) syncMap(addr *value) *hashmap {
